@@ -82,6 +82,33 @@ theorem two_settings_collide (pre : List Char) (environ : Environ) (c : KVs) (p 
       simp only [List.nil_append] at h1 h2
       exact hne (eq_of_nodup_map envVarName _ hnd h1 h2 hv)
 
+/-- HEADLINE.  For a configuration (a well-formed nested dict) the load is refused as ambiguous exactly when two
+    DISTINCT settings map to the same variable name -/
+theorem ambiguous_iff_two_settings (c : KVs) (hw : WF c) :
+    crawl [] c [] = .error .ambiguousEnv ↔
+      ∃ p q, p ≠ q ∧ isLeaf p c = true ∧ isLeaf q c = true ∧ envVarName p = envVarName q := by
+  rw [ambiguous_iff_collision]
+  constructor
+  · intro hn
+    obtain ⟨a, ha, b, hb, hab, hf⟩ := exists_ne_of_not_nodup_map envVarName _ (leafPaths_nodup c hw []) hn
+    obtain ⟨p, hp, hpl⟩ := getLeaf_of_mem_leafPaths c hw [] a ha
+    obtain ⟨q, hq, hql⟩ := getLeaf_of_mem_leafPaths c hw [] b hb
+    simp only [List.nil_append] at hp hq
+    subst hp; subst hq
+    exact ⟨a, b, hab, hpl, hql, hf⟩
+  · rintro ⟨p, q, hne, hp, hq, hv⟩ hnd
+    simp only [isLeaf] at hp hq
+    cases hx : getLeaf p c with
+    | none => simp [hx] at hp
+    | some x =>
+      cases hy : getLeaf q c with
+      | none => simp [hy] at hq
+      | some y =>
+        have h1 := mem_leafPaths_of_getLeaf p c [] x hx
+        have h2 := mem_leafPaths_of_getLeaf q c [] y hy
+        simp only [List.nil_append] at h1 h2
+        exact hne (eq_of_nodup_map envVarName _ hnd h1 h2 hv)
+
 /-! ## what a successful load writes -/
 
 /-- NEVER NEW SETTINGS: every setting of the loaded env level is an existing setting of the configuration that a
